@@ -369,7 +369,7 @@ func (g *gen) genStatement(typ types.Type, this, that string) error {
 		p.P("return true")
 		return nil
 	}
-	return fmt.Errorf("unsupported type: %#v", typ)
+	return fmt.Errorf("unsupported type: %s", g.TypeString(typ))
 }
 
 func not(s string) string {
@@ -514,6 +514,6 @@ func (g *gen) field(thisField, thatField string, fieldType types.Type) (string, 
 		}
 		return g.field("&"+thisField, "&"+thatField, types.NewPointer(fieldType))
 	default: // *Chan, *Tuple, *Signature, *Interface, *types.Basic.Kind() == types.UntypedNil, *Struct
-		return "", fmt.Errorf("unsupported type %#v", fieldType)
+		return "", fmt.Errorf("unsupported type %s", g.TypeString(fieldType))
 	}
 }
